@@ -57,6 +57,9 @@ EXPLANATION += ' R2: the PDB record writers are looked for in dump_one and the h
 # --- metadata added for batch 9
 EXPLANATION += ' Added: (R26) the MWFN $Centers reader on a model section (atomic number, core charge and position from their own columns); (R27, borrowed from C01-R19) the atom number heading a Molden [GTO] block. R7 (Molden [MO]): the model section interleaves alpha and beta orbitals.'
 # --- end metadata batch 9
+# --- metadata added after the round-5 refactoring twins
+EXPLANATION += ' R4 (Gaussian-log blocks): the block reader is evaluated on lower triangles of size 5, 7 and 10 followed by a sentinel line: every element lands on (row, column) and its mirror, and exactly the matrix is consumed -- however the block loop is written.'
+# --- end metadata round-5 twins
 
 
 def _load_spec():
